@@ -92,7 +92,7 @@ func init() {
 		Trusted:     []string{"go/types, go/cfg (x/tools v0.50.0)", "cmd/compile prove pass", "encoding/json, crypto/aes, crypto/cipher"},
 		Level:       "Sound static check of the structural clauses (cannot panic; registered claims overlaid last; sibling codec agreement; AES bounds and symmetry). Round-trip equality of values is not decided.",
 		Note:        "Trusted: go/types+go/cfg, compiler bounds report, encoding/json.",
-		Technique:   "static analysis: panic-site and nil-flow rules over the typed AST, sibling-agreement table from go/types, must-facts dataflow for ordering",
+		Technique:   "static analysis: panic-site and nil-flow rules over the typed AST, sibling-agreement table from go/types, must-facts dataflow for ordering and value bindings, method-set rule for values handed to JSON encoders (pointer-receiver MarshalJSON)",
 		Rules:       []string{"E1", "E4.R-assert", "E4.R-recursion", "E3.N1", "E8.R-marshal-value"},
 		Run: func(c *Ctx) {
 			RunE1(c, "C12", obs)
